@@ -96,6 +96,22 @@ def replay(recs):
                         x.centroid
                         return mv(x).centroid
                     chk(f"Polygon.centroid/2D/measured-then-moved/{mname}", st, case, c2, moved_centroid, lambda v, c2=c2: same_class(v.array, c2))
+            # ... and under a stretch that is no isometry (a memo that an isometry leaves numerically right is now stale)
+            Sm = np.diag([2, 3, 1] if dim == 2 else [2, 3, 4, 1])
+
+            def stretched(measured, what):
+                x = g.Polygon(*verts)
+                if measured:
+                    warm(x)
+                    x.area, x.centroid
+                return getattr(g.Transformation(Sm) * x, what)
+            if dim == 2:
+                chk("Polygon.area/2D/measured-then-stretched", st, case, 6 * area, lambda: stretched(True, "area"), lambda v: close(v, 6 * area))
+                cs = (Sm @ np.array(r["centroid"])).tolist()
+                chk("Polygon.centroid/2D/measured-then-stretched", st, case, cs, lambda: stretched(True, "centroid"), lambda v, cs=cs: same_class(v.array, cs))
+            else:
+                chk("Polygon.area/3D/measured-then-stretched", st, case, "the area of the image of an unmeasured polygon",
+                    lambda: [float(stretched(True, "area")), float(stretched(False, "area"))], lambda v: close(v[0], v[1]) and v[1] > 0)
             if dim == 2:
                 c = r["centroid"]
                 chk("Polygon.centroid/2D", st, case, c, lambda: g.Polygon(*verts).centroid, lambda v: same_class(v.array, c))
